@@ -336,6 +336,11 @@ func hsEq(a, b raftpb.HardState) bool {
 // reader positioned at snapshot index start yields exactly rec; -1 if none.
 func matchPrefix(W []lrec, wlen int, start uint64, meta []byte, rec *recovered) int {
 	if !bytes.Equal(meta, rec.meta) {
+		// a reader that stopped before the metadata record (second record of
+		// the first segment) has seen nothing at all: the empty prefix
+		if len(rec.meta) == 0 && hsEq(rec.hs, raftpb.HardState{}) && len(rec.ents) == 0 {
+			return 0
+		}
 		return -1
 	}
 	best := -1
